@@ -56,6 +56,26 @@ theorem interp_ok (t : Table) (O : Ops σ Seed Req Val) (seed : Option Seed) (ht
     cases h with
     | kernel hk => rw [interp, runIn, ih hk]
 
+/-- the call under an admissible table, in closed form -/
+theorem call_ok (t : Table) (O : Ops σ Seed Req Val) (seed : Option Seed) (ht : tableOk t = true)
+    (prog : Prog Req Val Out) (hp : SitesIn t.length prog) (i : Nat) (st : State σ Val) :
+    call t O prog seed i st =
+      ((runIn t O seed prog (O.seedTo (effSeedE O seed st.ent).1) (effSeedE O seed st.ent).2 st.libc).out,
+        ({ st with ent := (runIn t O seed prog (O.seedTo (effSeedE O seed st.ent).1) (effSeedE O seed st.ent).2 st.libc).ent,
+                   libc := (runIn t O seed prog (O.seedTo (effSeedE O seed st.ent).1) (effSeedE O seed st.ent).2 st.libc).libc }
+          : State σ Val).setPriv i (st.priv i)) := by
+  show ((interp t O seed prog (O.seedTo (effSeed O seed st).1) (st.priv i) (effSeed O seed st).2).1,
+        (interp t O seed prog (O.seedTo (effSeed O seed st).1) (st.priv i) (effSeed O seed st).2).2.2.setPriv i
+          (interp t O seed prog (O.seedTo (effSeed O seed st).1) (st.priv i) (effSeed O seed st).2).2.1) = _
+  rw [interp_ok t O seed ht prog hp]
+  rfl
+
+theorem setPriv_self (st : State σ Val) (i : Nat) : st.setPriv i (st.priv i) = st := by
+  obtain ⟨p, a, b, c, d, e⟩ := st
+  simp only [State.setPriv, State.mk.injEq, and_true]
+  funext j
+  by_cases h : j = i <;> simp [h]
+
 /-- for a seeded call output, final stream and request trace do not depend on entropy / libc -/
 theorem runIn_seeded (t : Table) (O : Ops σ Seed Req Val) (s : Seed) :
     ∀ (prog : Prog Req Val Out) (cur : σ) (e e' : Nat) (l l' : Option Val),
